@@ -234,8 +234,8 @@ Proof.
     + intros W i k' p' Hn. destruct (Nat.lt_ge_cases i (length t)) as [Hl|Hl].
       * rewrite nth_error_app1 in Hn by exact Hl. eapply W; eauto.
       * rewrite nth_error_app2 in Hn by exact Hl. destruct (i - length t)%nat as [|j] eqn:Ej.
-        -- cbn in Hn. inversion Hn; subst. unfold blen. f_equal. lia.
-        -- cbn in Hn. destruct j; discriminate.
+        -- cbn [nth_error] in Hn. inversion Hn; subst. unfold blen. f_equal. lia.
+        -- cbn [nth_error] in Hn. destruct j; discriminate.
     + intros k'. rewrite map_app, in_app_iff. cbn. intuition.
     + intros ND. rewrite map_app. cbn. apply NoDup_app_single; [exact ND|]. apply alookup_none_notin. exact E.
 Qed.
